@@ -146,6 +146,12 @@ def layered_plan(world, fault, fill):
                 "delim": "=", "comment": "#", "tag": "libobj"})
     ops.append({"op": "free", "k": 7})
     ops.append({"op": "freeNull", "tag": "freenull"})
+    # a write that fails while the data is flushed (the target is a link to /dev/full, the text exceeds the stdio buffer):
+    # the stream is the library's to close on that path too
+    ops.append({"op": "newKeyFile", "o": 11, "delim": 61, "comment": 35, "tag": "bigobj"})
+    ops.append({"op": "set", "k": 11, "type": "String", "group": "big", "key": "text", "v": "x" * 9000, "need": ["k"]})
+    ops.append({"op": "write", "k": 11, "dir": "$ROOT/wfull", "name": "full.conf", "need": ["k"], "tag": "write_full"})
+    ops.append({"op": "free", "k": 11})
     # the working directory is removed under the process: relative names that start with ".." still reach their file for
     # lstat(), but the directory part can no longer be made absolute - one more way for a read to fail midway
     ops.append({"op": "chdir", "path": "$ROOT/gone/cwd"})
@@ -155,7 +161,7 @@ def layered_plan(world, fault, fill):
     ops.append({"op": "readDirsHistory", "o": 9, "usr": "../relusr", "etc": "../reletc", "name": "app", "suffix": "conf", "delim": "=", "comment": "#", "tag": "nocwd"})
     ops.append({"op": "freeHistory", "h": 9})
     cfg = dict(world["cfg"], fill=fill)
-    tree = gen.tree_plan(nodes) + [{"t": "f", "p": "$ROOT/gone/relx.conf", "c": "k=v\n"}, {"t": "f", "p": "$ROOT/gone/relusr/app.conf", "c": "a=1\n"},
+    tree = gen.tree_plan(nodes) + [{"t": "d", "p": "$ROOT/wfull"}, {"t": "l", "p": "$ROOT/wfull/full.conf", "to": "/dev/full"}, {"t": "f", "p": "$ROOT/gone/relx.conf", "c": "k=v\n"}, {"t": "f", "p": "$ROOT/gone/relusr/app.conf", "c": "a=1\n"},
                                    {"t": "f", "p": "$ROOT/gone/reletc/app.conf.d/x.conf", "c": "b=2\n"}]
     return {"cfg": cfg, "tree": tree, "ops": ops}
 
